@@ -48,6 +48,10 @@ pub enum Base {
     /// write back-pressure active: the peer does not read, the small write buffer is over its high
     /// watermark, one publish handler is in flight; the peer starts reading again after the fault
     Backpressure,
+    /// servers: the protocol service, handling a SUBSCRIBE, is itself awaiting a QoS 1 send through the sink (never
+    /// acknowledged by the peer) and a PINGREQ is queued behind it in the control pipeline: tear-down must fail
+    /// that send, or service shutdown waits for the handler, which waits for the send, for ever
+    HandlerSends,
 }
 
 #[derive(Clone, Debug)]
@@ -113,6 +117,7 @@ fn script_for(cfg: &TdCfg) -> Vec<BaseStep> {
             BaseStep::StartSender(3, SK::Q0),
         ],
         Base::Sends => vec![BaseStep::StartSender(0, SK::Q1), BaseStep::StartSender(1, SK::Q1), BaseStep::StartSender(2, SK::Ready)],
+        Base::HandlerSends => vec![BaseStep::Send(Pkt::Subscribe { pid: 3, props: vec![], filters: vec![("f/1".into(), 0)] }), BaseStep::Send(Pkt::PingReq), BaseStep::Send(Pkt::PingReq)],
         Base::Bytes => {
             let mut all = Vec::new();
             all.extend_from_slice(&rf::encode(ver, &rf::publish(1, 1, "t", &[0xC1, 0xC1])));
@@ -407,7 +412,7 @@ pub fn configs(tier: Tier) -> Vec<TdCfg> {
     let mut v = Vec::new();
     let causes = [Cause::PeerClose, Cause::ReadErr, Cause::WriteErr, Cause::Garbage, Cause::ProtoViolation, Cause::HandlerErr, Cause::ProtoErr, Cause::KeepAlive, Cause::Close, Cause::ForceClose, Cause::ReadyErr];
     for (ver, role) in crate::c05::roles() {
-        for base in [Base::Handlers, Base::Streaming, Base::StreamingDetached, Base::Sends, Base::SendsCb, Base::Bytes, Base::Backpressure, Base::OutStream] {
+        for base in [Base::Handlers, Base::Streaming, Base::StreamingDetached, Base::Sends, Base::SendsCb, Base::Bytes, Base::Backpressure, Base::OutStream, Base::HandlerSends] {
             for cause in causes {
                 if base == Base::Bytes && !matches!(cause, Cause::PeerClose | Cause::ReadErr | Cause::ForceClose | Cause::Garbage) {
                     continue;
@@ -431,10 +436,15 @@ pub fn configs(tier: Tier) -> Vec<TdCfg> {
                 if cause == Cause::ReadyErr && !matches!(base, Base::Handlers | Base::Streaming | Base::StreamingDetached | Base::Backpressure) {
                     continue;
                 }
+                if base == Base::HandlerSends && (role == Role::Client || matches!(cause, Cause::HandlerErr | Cause::ProtoErr | Cause::ReadyErr)) {
+                    continue;
+                }
                 let mut ep = EpCfg::new(ver, role);
+                ep.proto_sends = base == Base::HandlerSends;
                 ep.ready_gate = cause == Cause::ReadyErr;
                 ep.handler_auto = false;
-                ep.proto_auto = false;
+                // (HandlerSends: the handler answers by itself once its send has resolved)
+                ep.proto_auto = base == Base::HandlerSends;
                 ep.min_chunk_size = 2;
                 ep.client_keepalive = if cause == Cause::KeepAlive { 2 } else { 0 };
                 if cause == Cause::KeepAlive && role == Role::Client {
@@ -476,7 +486,7 @@ pub fn run(tier: Tier) -> i32 {
         ck.explore::<Td>("teardown", i, c, &ecfg);
     }
     ck.rule = format!(
-        "4 roles x 8 base schedules (the window slot held by a publish sent through the non-blocking API with a send and a ready() future parked behind it; an outbound QoS 1 publish being streamed by the application - header and first chunk written, second chunk owed, another sender parked behind it; write back-pressure active - peer not reading, 16-byte write buffer over its high watermark, a publish handler in flight - with the peer reading again after the fault; the publish/subscribe stream delivered one byte per write for peer close / read error / force-close at every byte offset; two gated publish handlers + gated SUBSCRIBE; streamed PUBLISH half received with the handler blocked in read(); the same (servers) with the payload taken over by a task of its own that is blocked in read_all(); one send awaiting its ack + one parked on the window + one ready() future) x 11 termination causes (peer close, read error, write error, undecodable bytes, protocol-violating packet, publish handler error, protocol handler error, keep-alive expiry, sink.close(), sink.force_close(), and - inbound bases - the application's publish service (clients: protocol service) starting to fail in Service::ready()); the cause is injected before/after every step of the base schedule at quiescence and, with {} deviation(s), between any two task polls; afterwards virtual time advances up to 60 s and gates are never opened; oracle: exactly one Stop of the class the statement assigns to the cause, connection task completed, every send/ready future resolved, blocked reader saw an error or was cancelled (a reader outside the handler: saw an error), a publish sent through the non-blocking API had its callback invoked exactly once with the disconnected flag, handlers cancelled only after the Stop was handled, nothing left executing",
+        "4 roles x 9 base schedules (servers: the protocol service, while handling a SUBSCRIBE, is itself awaiting a QoS 1 send through the sink with two PINGREQs queued behind it; the window slot held by a publish sent through the non-blocking API with a send and a ready() future parked behind it; an outbound QoS 1 publish being streamed by the application - header and first chunk written, second chunk owed, another sender parked behind it; write back-pressure active - peer not reading, 16-byte write buffer over its high watermark, a publish handler in flight - with the peer reading again after the fault; the publish/subscribe stream delivered one byte per write for peer close / read error / force-close at every byte offset; two gated publish handlers + gated SUBSCRIBE; streamed PUBLISH half received with the handler blocked in read(); the same (servers) with the payload taken over by a task of its own that is blocked in read_all(); one send awaiting its ack + one parked on the window + one ready() future) x 11 termination causes (peer close, read error, write error, undecodable bytes, protocol-violating packet, publish handler error, protocol handler error, keep-alive expiry, sink.close(), sink.force_close(), and - inbound bases - the application's publish service (clients: protocol service) starting to fail in Service::ready()); the cause is injected before/after every step of the base schedule at quiescence and, with {} deviation(s), between any two task polls; afterwards virtual time advances up to 60 s and gates are never opened; oracle: exactly one Stop of the class the statement assigns to the cause, connection task completed, every send/ready future resolved, blocked reader saw an error or was cancelled (a reader outside the handler: saw an error), a publish sent through the non-blocking API had its callback invoked exactly once with the disconnected flag, handlers cancelled only after the Stop was handled, nothing left executing",
         ecfg.max_dev
     );
     ck.assumptions = vec![
